@@ -149,8 +149,12 @@ func enumerate(tier string) (chains []Chain, flags []uint8, N int, gridSizes map
 	if tier == "thorough" {
 		N = 12
 	}
-	var condsAll []int
+	var condsAll, condsOr []int
 	for i, cd := range conds {
+		if cd.OrGrid {
+			condsOr = append(condsOr, i)
+			continue
+		}
 		if !cd.Thorough || tier == "thorough" {
 			condsAll = append(condsAll, i)
 		}
@@ -190,7 +194,15 @@ func enumerate(tier string) (chains []Chain, flags []uint8, N int, gridSizes map
 	// FindInBatches callback
 	gridD := grid{name: "D:three-orderings", sizes: seqInts(0, N), conds: []int{0, 3}, orders: []int{orderTies},
 		lo: cross(singles(limitVals), singles(offsetVals)), layouts: []int{0}}
-	grids = append([]grid{grids[0], gridD}, grids[1:]...) // D runs right after A, before the bulky pair grids
+	// E: Or-chains as the condition (top-level OR terms, Or alone, Or followed by Where,
+	// Not + Or, and a grouped Or), every read path fresh and on reusable handles
+	orL, orO := singles([]int{0, 1, 2, 3, N + 1, -1}), singles([]int{0, 1, 2, N, -1})
+	if tier == "thorough" {
+		orL, orO = singles(limitVals), singles(offsetVals)
+	}
+	gridE := grid{name: "E:or-chains", sizes: seqInts(0, N), conds: condsOr, orders: []int{0, 1},
+		lo: cross(orL, orO), layouts: []int{0}}
+	grids = append([]grid{gridD, gridE}, grids...) // the small grids D and E run first, then A, then the bulky pair grids
 	if tier == "thorough" {
 		// C: pairs of both kinds against each other
 		grids = append(grids, grid{name: "C:pairs-x-pairs", sizes: []int{N}, conds: []int{0}, orders: []int{1},
@@ -198,7 +210,11 @@ func enumerate(tier string) (chains []Chain, flags []uint8, N int, gridSizes map
 	}
 	seen := map[string]bool{}
 	gridSizes = map[string]int{}
+	only := os.Getenv("VERIF_C15_GRIDS") // debugging aid: comma-separated grid letters, e.g. "E" or "A,D"
 	for _, g := range grids {
+		if only != "" && !strings.Contains(","+only+",", ","+g.name[:1]+",") {
+			continue
+		}
 		for _, n := range g.sizes {
 			for _, cd := range g.conds {
 				for _, od := range g.orders {
@@ -231,6 +247,9 @@ func enumerate(tier string) (chains []Chain, flags []uint8, N int, gridSizes map
 								if lay == 0 && cd < 4 && inInts(n, faultSizes) && one(lo[0], faultL) && one(lo[1], faultO) {
 									f |= fFault
 								}
+							}
+							if strings.HasPrefix(g.name, "E:") {
+								f = fHandles
 							}
 							if strings.HasPrefix(g.name, "D:") {
 								f = fHandles | fCallback
@@ -278,7 +297,7 @@ func (w *worker) env(n int) *h.Env {
 		if it.C != nil {
 			c = *it.C
 		}
-		e.MustExec("INSERT INTO items (id,a,b,c) VALUES (?,?,?,?)", it.ID, it.A, it.B, c)
+		e.MustExec("INSERT INTO items (id,a,b,c,l,p) VALUES (?,?,?,?,?,?)", it.ID, it.A, it.B, c, labelsText(it.L), metaText(it.P))
 	}
 	w.envs[n] = e
 	w.pristine[n] = e.Dump("items")
@@ -306,6 +325,8 @@ type stats struct {
 	ctxCases        int64 // single reads on a WithContext handle
 	seqCases        int64 // two reads on the same reusable handle
 	chainCases      int64 // second read chained on the first finisher's return value
+	orChainCases    int64 // single reads (fresh or on a handle) under an Or-chain condition
+	orFibCursor     int64 // ... FindInBatches calls that need the key cursor under a top-level Or term
 	callbackCases   int64 // FindInBatches with a read on the same handle inside the callback
 	callbackMulti   int64 // ... that delivered >= 2 batches (>= 2 inner reads interleaved with the batch queries)
 	countThenPage   int64 // Count, then Limit/Offset, then a read, on Count's return value, window non-empty
@@ -327,7 +348,7 @@ func (ck *checker) activePaths(c Chain) []int {
 		if p.Thorough && ck.tier != "thorough" {
 			continue
 		}
-		if p.Inline && c.Cond == 0 {
+		if p.Inline && (c.Cond == 0 || conds[c.Cond].Inline == nil) {
 			continue
 		}
 		if p.NoSchema && c.Order == 2 {
@@ -413,6 +434,12 @@ func (ck *checker) evalCase(w *worker, e *h.Env, cs Case, ex *expect, ref []stri
 	// time with recording to show the statements (and to confirm determinism)
 	out := execCase(e, cs, false)
 	atomic.AddInt64(&ck.st.evaluations, 1)
+	if cd := conds[cs.Chain.Cond]; cd.OrGrid {
+		atomic.AddInt64(&ck.st.orChainCases, 1)
+		if cd.TopOr && paths[pathIndex(cs.Path)].Kind == kFIB && fibIssuesSecondQuery(cs.Chain, cs.Batch) {
+			atomic.AddInt64(&ck.st.orFibCursor, 1)
+		}
+	}
 	fails := judge(cs, ex, out, ref, refOK)
 	desc := describeOutcome(cs, out)
 	if len(fails) > 0 {
@@ -764,7 +791,7 @@ func main() {
 	wg.Wait()
 
 	st := &ck.st
-	exhaustive := timedOut == 0
+	exhaustive := timedOut == 0 && os.Getenv("VERIF_C15_GRIDS") == ""
 	if run.NumViolations() == 0 && exhaustive {
 		floor := func(name string, got, min int64) {
 			if got < min {
@@ -786,6 +813,8 @@ func main() {
 		floor("two_reads_same_handle_cases", st.seqCases, 5000)
 		floor("read_chained_on_return_value_cases", st.chainCases, 10000)
 		floor("count_then_page_cases", st.countThenPage, 5000)
+		floor("or_chain_cases", st.orChainCases, 50000)
+		floor("or_chain_fib_calls_needing_the_key_cursor", st.orFibCursor, 1000)
 		floor("fib_callback_read_cases", st.callbackCases, 5000)
 		floor("fib_callback_read_cases_multi_batch", st.callbackMulti, 1000)
 		fs := &ck.fst
@@ -811,46 +840,49 @@ func main() {
 	run.Assume("primitive destinations (Pluck/Scan/Find into &int, &uint, &string) over several rows: only membership of the value in the window is checked (which row lands is not stated); exact when the window has <= 1 row")
 	run.Assume("Count is compared with len(Find) only when the effective limit and offset are absent (incl. cancelled by a negative value); with a limit/offset it is executed but only errors/panics are judged")
 	run.Assume("reads chained on a finisher's return value are checked only for the pairs gorm documents: Count -> any read ('total + page') and Find -> Count. Left out as ill-defined: chaining on the handle returned by First/Take/Last (it keeps the finder's own LIMIT 1 and ORDER BY), Pluck/Select-Scan (keeps the SELECT list), Scan/Rows (no reusable handle), FindInBatches (keeps its ORDER BY and the last cursor condition), Find -> Find/First (keeps Dest-derived state); a fresh (non-Session) chain used for two separate statements (documented as not reusable)")
+	run.Assume("Or-chains: the reference evaluates u1 op u2 op u3 (op = AND for Where/Not, OR for Or) with SQL precedence, as C02 does; a leading Or counts as the first unit")
 	run.Assume("outside the alphabet: user orderings contradicting key order for FindInBatches; Limit(0)/Offset(0) as the later value of an override pair; FindInBatches into maps; Group/Distinct/Joins; callbacks returning errors")
 	run.Finish(map[string]interface{}{
-		"evaluations":                           st.evaluations,
-		"distinct_nontrivial":                   ck.distinct.Len(),
-		"rule":                                  fmt.Sprintf("N=%d. chains = table size x condition x ordering x sequence of Limit/Offset calls, grids %v (A: every single Limit in {absent,0,1..N+1,-1} x every single Offset in {absent,0..N,-1} x both call orders x all sizes 0..N x all conditions x 3 orderings; B: every override/cancel pair of one kind x a small set of the other kind x 4 call layouts; C (thorough): limit pairs x offset pairs, alternating call layout). Every chain is executed through every read path (%d path variants) and FindInBatches with every batch size 1..N+1 into []Item and (grid A) []*Item; Besides fresh chains, grid A chains (orderings none / Order(id); quick: one call order) are also run from reusable handles chain.Session(&gorm.Session{}) (all paths) and chain.WithContext(ctx) (14 representative paths), pair grids from a Session handle (6 representative paths; quick runs the pair grids with the representative paths only). Two-read cases: (1) tx := chain[.Session|.WithContext].Count(&n), then a read on tx — with the Limit/Offset calls made before Count (6 reads) and after Count on the returned handle, 'total + page' (14 reads) — and Find(&[]Item|&[]*Item|&[]map) followed by Count on the returned handle, for every single limit x offset of grid A; (2) base := chain.Session|WithContext; base -> first read (10 kinds); base -> second read (every path), on a sub-grid; both reads are judged against the same reference window; (3) base -> FindInBatches (batch sizes 1,2,3,N+1) with a read on base (First/Last/Count, and Find/Take/Pluck where the chain determines the order) issued inside every callback: batches must stay exact and every inner read is judged. (4) cursor faults (bound 1): on a slice of grids A and D (quick: sizes {0,1,3,5,N} x limit {absent,1,2,5,-1} x offset {absent,1,3,N}; thorough: all sizes x every single limit x every single offset, one call order, orderings none / Order(id) / three tie orderings, the four base conditions) every read path (FindInBatches with batch sizes 1,2,3,N+1) is first executed fault-free with a row hook that records every (query,row) point its result sets consult (state), then once per point with the iteration failing there (transition); the call must report an error or deliver exactly the fault-free result. Grid D: chains carrying three orderings on which all rows tie (only First/Last/FindInBatches/Count are run there), fresh, on reusable handles and with reads inside the callback. evaluations = cases executed (a case = one read, or a pair of reads). A chain is non-trivial when its expected window is non-empty and smaller than the table (condition, limit or offset really cut something); distinct = distinct such chains", N, gridSizes, len(paths)),
-		"samples":                               ck.samples.List(),
-		"exhaustive":                            exhaustive,
-		"chains":                                st.chains,
-		"chains_enumerated":                     len(chains),
-		"table_sizes":                           N + 1,
-		"path_variants":                         len(paths),
-		"distinct_outcomes":                     outcomes.Len(),
-		"distinct_batch_shapes":                 shapes.Len(),
-		"fib_calls":                             st.fibCalls,
-		"fib_multi_batch":                       st.fibMultiBatch,
-		"fib_partial_last_batch":                st.fibPartialLast,
-		"fib_limit_cuts_mid_batch":              st.fibLimitCuts,
-		"fib_offset_beyond_end":                 st.fibOffsetBeyond,
-		"fib_offset_inside":                     st.fibOffsetInside,
-		"finder_found":                          st.finderFound,
-		"finder_not_found":                      st.finderNotFound,
-		"count_checked_against_find":            st.countChecked,
-		"override_chains":                       st.overrideChains,
-		"cancel_chains":                         st.cancelChains,
-		"multi_row_path_checks":                 st.multiChecked,
-		"single_record_dest_checks":             st.singleChecked,
-		"primitive_dest_checks":                 st.primChecked,
-		"session_handle_cases":                  st.sessionCases,
-		"context_handle_cases":                  st.ctxCases,
-		"two_reads_same_handle_cases":           st.seqCases,
-		"read_chained_on_return_value_cases":    st.chainCases,
-		"count_then_page_cases":                 st.countThenPage,
-		"fib_callback_read_cases":               st.callbackCases,
-		"fib_callback_read_cases_multi_batch":   st.callbackMulti,
-		"cursor_fault_states":                   ck.fst.states,
-		"cursor_fault_transitions":              ck.fst.transitions,
-		"cursor_fault_ended_in_error":           ck.fst.erred,
-		"cursor_fault_identical_result":         ck.fst.identical,
-		"cursor_fault_truncating_and_reported":  ck.fst.truncating,
-		"cursor_fault_points_inside_result_set": ck.fst.midResult,
-		"cursor_fault_points_in_later_queries":  ck.fst.multiQuery,
+		"evaluations":                               st.evaluations,
+		"distinct_nontrivial":                       ck.distinct.Len(),
+		"rule":                                      fmt.Sprintf("N=%d. chains = table size x condition x ordering x sequence of Limit/Offset calls, grids %v (A: every single Limit in {absent,0,1..N+1,-1} x every single Offset in {absent,0..N,-1} x both call orders x all sizes 0..N x all conditions x 3 orderings; B: every override/cancel pair of one kind x a small set of the other kind x 4 call layouts; C (thorough): limit pairs x offset pairs, alternating call layout). Every chain is executed through every read path (%d path variants) and FindInBatches with every batch size 1..N+1 into []Item and (grid A) []*Item; Besides fresh chains, grid A chains (orderings none / Order(id); quick: one call order) are also run from reusable handles chain.Session(&gorm.Session{}) (all paths) and chain.WithContext(ctx) (14 representative paths), pair grids from a Session handle (6 representative paths; quick runs the pair grids with the representative paths only). Two-read cases: (1) tx := chain[.Session|.WithContext].Count(&n), then a read on tx — with the Limit/Offset calls made before Count (6 reads) and after Count on the returned handle, 'total + page' (14 reads) — and Find(&[]Item|&[]*Item|&[]map) followed by Count on the returned handle, for every single limit x offset of grid A; (2) base := chain.Session|WithContext; base -> first read (10 kinds); base -> second read (every path), on a sub-grid; both reads are judged against the same reference window; (3) base -> FindInBatches (batch sizes 1,2,3,N+1) with a read on base (First/Last/Count, and Find/Take/Pluck where the chain determines the order) issued inside every callback: batches must stay exact and every inner read is judged. (4) cursor faults (bound 1): on a slice of grids A and D (quick: sizes {0,1,3,5,N} x limit {absent,1,2,5,-1} x offset {absent,1,3,N}; thorough: all sizes x every single limit x every single offset, one call order, orderings none / Order(id) / three tie orderings, the four base conditions) every read path (FindInBatches with batch sizes 1,2,3,N+1) is first executed fault-free with a row hook that records every (query,row) point its result sets consult (state), then once per point with the iteration failing there (transition); the call must report an error or deliver exactly the fault-free result. Grid E: Or-chains as the condition (Where.Or, Or alone, Where.Or.Where, Not.Or, grouped Where(db.Where.Or)) x orderings none/Order(id) x single limits x single offsets, every read path fresh and on Session/WithContext handles; every FindInBatches call is stopped by the harness after rows+3 callbacks (violation 'does not terminate / repeats rows'). Grid D: chains carrying three orderings on which all rows tie (only First/Last/FindInBatches/Count are run there), fresh, on reusable handles and with reads inside the callback. evaluations = cases executed (a case = one read, or a pair of reads). A chain is non-trivial when its expected window is non-empty and smaller than the table (condition, limit or offset really cut something); distinct = distinct such chains", N, gridSizes, len(paths)),
+		"samples":                                   ck.samples.List(),
+		"exhaustive":                                exhaustive,
+		"chains":                                    st.chains,
+		"chains_enumerated":                         len(chains),
+		"table_sizes":                               N + 1,
+		"path_variants":                             len(paths),
+		"distinct_outcomes":                         outcomes.Len(),
+		"distinct_batch_shapes":                     shapes.Len(),
+		"fib_calls":                                 st.fibCalls,
+		"fib_multi_batch":                           st.fibMultiBatch,
+		"fib_partial_last_batch":                    st.fibPartialLast,
+		"fib_limit_cuts_mid_batch":                  st.fibLimitCuts,
+		"fib_offset_beyond_end":                     st.fibOffsetBeyond,
+		"fib_offset_inside":                         st.fibOffsetInside,
+		"finder_found":                              st.finderFound,
+		"finder_not_found":                          st.finderNotFound,
+		"count_checked_against_find":                st.countChecked,
+		"override_chains":                           st.overrideChains,
+		"cancel_chains":                             st.cancelChains,
+		"multi_row_path_checks":                     st.multiChecked,
+		"single_record_dest_checks":                 st.singleChecked,
+		"primitive_dest_checks":                     st.primChecked,
+		"session_handle_cases":                      st.sessionCases,
+		"context_handle_cases":                      st.ctxCases,
+		"two_reads_same_handle_cases":               st.seqCases,
+		"read_chained_on_return_value_cases":        st.chainCases,
+		"count_then_page_cases":                     st.countThenPage,
+		"fib_callback_read_cases":                   st.callbackCases,
+		"or_chain_cases":                            st.orChainCases,
+		"or_chain_fib_calls_needing_the_key_cursor": st.orFibCursor,
+		"fib_callback_read_cases_multi_batch":       st.callbackMulti,
+		"cursor_fault_states":                       ck.fst.states,
+		"cursor_fault_transitions":                  ck.fst.transitions,
+		"cursor_fault_ended_in_error":               ck.fst.erred,
+		"cursor_fault_identical_result":             ck.fst.identical,
+		"cursor_fault_truncating_and_reported":      ck.fst.truncating,
+		"cursor_fault_points_inside_result_set":     ck.fst.midResult,
+		"cursor_fault_points_in_later_queries":      ck.fst.multiQuery,
 	})
 }
